@@ -19,7 +19,7 @@ META = {
   "strchr/strlen/memcpy/memset/memcmp: CBMC's built-in C library models",
   "open finding C17_from_native_len1: length 1 is excluded from the main from_native query and demonstrated by from_native_len1_kf_demo"],
  "outside": ["the platform's own parsers/printers (which strings are numeric addresses, which text is produced)", "scope id in text form (\"%eth0\")",
-             "text longer than the stated bound (quick 4 / thorough 7 characters for new; 7 / 15 for get_address; the real maximum is 45)",
+             "text longer than 64 characters for new; platform text longer than 7 (quick) / 15 (thorough) characters for get_address (the real maximum is 45)",
              "native lengths beyond sizeof(sockaddr_in6)+4 (quick) / +16 (thorough)", "Windows (WSAStringToAddress) and non-getaddrinfo build variants",
              "getaddrinfo results with more than one list element",
              "re-entrancy: preemption inside straight-line library code (only platform calls and allocator calls are preemption points), more than 2 concurrent calls, "
@@ -52,6 +52,10 @@ def queries(tier):
     qs.append(Q("text_new", "harness/C17_text.c", units=UNITS, models=NET, includes=["models/redir_netdb.h"], defs=["MODE_NEW", "TEXT_MAX=%d" % tm],
                 unwind=30, timeout=1800, funcs=["p_socket_address_new", "p_socket_address_new_from_native", "p_socket_address_to_native"] + GETTERS,
                 bounds={"text": "any NUL-terminated string of <= %d characters" % tm, "port": "all", "platform_verdicts_and_outputs": "all"}))
+    # every text length 0..64 (longer than INET6_ADDRSTRLEN: "addr%scope" strings): contents fully symbolic, platform verdict symbolic
+    qs.append(Q("text_new_len64", "harness/C17_text.c", units=UNITS, models=NET, includes=["models/redir_netdb.h"], defs=["MODE_NEW", "TEXT_MAX=64"],
+                unwind=70, timeout=1800, funcs=["p_socket_address_new", "p_socket_address_new_from_native"],
+                bounds={"text": "any NUL-terminated string of 0..64 characters", "port": "all", "platform_verdicts_and_outputs": "all"}))
     gm = 7 if tier == "quick" else 15
     qs.append(Q("text_get_address", "harness/C17_text.c", units=UNITS + ["src/pstring.c"], models=NET, includes=["models/redir_netdb.h"],
                 defs=["MODE_GET", "VMN_TEXT_MAX=%d" % gm], unwind=30, timeout=1800, funcs=["p_socket_address_get_address", "p_strdup"],
